@@ -1377,6 +1377,7 @@ static void do_swapv(const Op* o) {
 }
 
 /* ---------------------------------------------------------------- views */
+static var view_accept_all(var x) { return x; }
 static var view_even(var x) { return (c_int(x) % 2 == 0) ? x : NULL; }   /* filter / map hand the element itself to the function */
 static struct Int g_map_out;
 static var view_double(var args) { static char buf[sizeof(struct Header) + sizeof(struct Int)]; struct Int* o = header_init(buf, Int, AllocStatic); o->val = (int64_t)((uint64_t)c_int(args) * 2u + 1u);   /* wraps, by definition */ (void)g_map_out; return o; }
@@ -1543,11 +1544,13 @@ static void do_bad(const Op* o) {
       /* a stack Tuple cannot be resized: every attempt must raise and leave it as it was */
       var a0 = $I(10), a1 = $I(20), a2 = $I(30);
       var t = tuple(a0, a1, a2);
-      int w = (int)(((x % 6) + 6) % 6);
-      static const char* wn[] = { "stack-tuple-pop_at", "stack-tuple-rem", "stack-tuple-push", "stack-tuple-pop", "stack-tuple-resize", "stack-tuple-push_at" };
+      int w = (int)(((x % 8) + 8) % 8);
+      static const char* wn[] = { "stack-tuple-pop_at", "stack-tuple-rem", "stack-tuple-push", "stack-tuple-pop", "stack-tuple-resize", "stack-tuple-push_at",
+                                  "stack-tuple-assign", "stack-tuple-assign-from-filter" };
       what = wn[w]; acc = X_VALUE | X_RESOURCE;
       try { switch (w) { case 0: pop_at(t, $I(x % 3 < 0 ? 0 : x % 3)); break; case 1: rem(t, $I(20)); break; case 2: push(t, a0); break;
-                         case 3: pop(t); break; case 4: resize(t, 1); break; default: push_at(t, a2, $I(1)); break; } } catch (e) { ex = e; }
+                         case 3: pop(t); break; case 4: resize(t, 1); break; case 5: push_at(t, a2, $I(1)); break;
+                         case 6: assign(t, tuple(a2, a1)); break; default: assign(t, filter(tuple(a2, a1), $(Function, view_accept_all))); break; } } catch (e) { ex = e; }
       if (len(t) != 3 || get(t, $I(0)) isnt a0 || get(t, $I(1)) isnt a1 || get(t, $I(2)) isnt a2) {
         char cls[96]; snprintf(cls, sizeof cls, "C12:state-changed:%s", what); viol("C12", cls, "the refused call '%s' changed the stack Tuple", what);
       }
